@@ -226,6 +226,49 @@ def run(ctx):
                 if any(abs(a + b) > 4e-16 * (abs(a) + abs(float(x[e]))) for a, b in zip(vals, reversed(vals))):
                     ctx.violation('central evaluation points are not symmetric about x', element=e, offsets=vals[:6], **rep)
                     break
+    # ---- steps that vanish against x (x + h == x in floating point: tiny user steps, very many steps, huge |x|), at negative and positive
+    # x: whatever the library does about them, forward must not go below x, backward not above (asserted on the recorded arguments only)
+    for it in range(ctx.budget(40, 400)):
+        cls = rng.choice(['Derivative', 'Gradient', 'Jacobian', 'Hessdiag', 'Hessian'])
+        m = rng.choice(['forward', 'backward'])
+        dim = 1 if cls == 'Derivative' else rng.randint(1, 3)
+        x = np.array([rng.choice([-1, -1, 1]) * 10.0 ** rng.uniform(-1, 3) for _ in range(dim)])
+        kind = rng.choice(['tiny-scalar', 'many-steps', 'tiny-base'])
+        if kind == 'tiny-scalar':
+            kw = dict(step=10.0 ** rng.uniform(-22, -17))
+        elif kind == 'many-steps':
+            kw = dict(step=MaxStepGenerator(num_steps=rng.randint(56, 70), step_ratio=2.0))
+        else:
+            kw = dict(step=MinStepGenerator(base_step=10.0 ** rng.uniform(-22, -18), num_steps=8))
+        kw['method'] = m
+        rec = []
+        if cls == 'Derivative':
+            f = lambda t: (rec.append(np.array(t, dtype=float)), t * t + 1.0)[1]
+        elif cls == 'Jacobian':
+            f = lambda t: (rec.append(np.array(t, dtype=float)), np.array([t[0] * t[-1], t[0] + 2.0 * t[-1]]))[1]
+        else:
+            f = lambda t: (rec.append(np.array(t, dtype=float)), np.sum(t * t) + t[0] * t[-1])[1]
+        ctx.tried(('vanishing-steps', cls, m, kind, tuple(x)))
+        try:
+            with warnings.catch_warnings():
+                warnings.simplefilter('ignore')
+                getattr(nd, cls)(f, **kw)(x if cls != 'Derivative' else x[0])
+        except Exception as ex:
+            # too few steps for the rule etc. is misuse of the options, not a matter of this property
+            if not isinstance(ex, ValueError):
+                ctx.violation('%s raised %r with vanishing steps' % (cls, ex), cls=cls, method=m, x=x.tolist(), step=kind)
+            continue
+        xs = x if cls != 'Derivative' else x[:1]
+        for r in rec:
+            r = np.atleast_1d(r)
+            if m == 'forward' and np.any(r < xs):
+                ctx.violation('forward evaluated f below x', point=[float(v).hex() for v in r], x=[float(v).hex() for v in xs], cls=cls, step=kind,
+                              options=str({k: (v if not hasattr(v, 'num_steps') else type(v).__name__) for k, v in kw.items()}))
+                break
+            if m == 'backward' and np.any(r > xs):
+                ctx.violation('backward evaluated f above x', point=[float(v).hex() for v in r], x=[float(v).hex() for v in xs], cls=cls, step=kind,
+                              options=str({k: (v if not hasattr(v, 'num_steps') else type(v).__name__) for k, v in kw.items()}))
+                break
     if out:
         ctx.sample({'engine': 'points', 'line': lines[0], 'model': out[0]})
     ctx.search['rule'] = ('all five classes x their methods x n 1..6 x order 1..8 x dimension 1..5 x step generators (default, Min/Max with random '
